@@ -128,10 +128,51 @@ def check_obligations() -> list:
                 for direction, goal in (('no-spurious', z3.Implies(in_result, wz)),
                                         ('no-miss', z3.Implies(wz, in_result))):
                     obs.append(Obligation(f'{name}:exact:{direction}:{pid}/{path_id(so)}',
+                                          replay=make_replay(func, spec, code, lex, kx),
                                           assumptions=list(o.pc) + list(so.pc) + lit_axioms() + extra, goal=goal,
                                           detail=f'{code}: an item is reported iff it satisfies the documented '
                                                  f'condition ({func.__doc__})', timeout_ms=30000, **cm))
     return obs
+
+
+def make_replay(func, spec, code, lex, kx):
+    """The solver's model as a concrete lexicon: the real check function against the documented condition."""
+    def replay(res):
+        from contracts.lmfrt import Concretiser, small_model
+        if res.z3model is None:
+            return {'reproduced': False}
+        m = small_model(res, [lex])
+        c = Concretiser(m)
+        L = c.value(lex)
+        k = c.string(kx.z)
+
+        def strip(d):
+            if isinstance(d, dict):
+                return {a: strip(b) for a, b in d.items()}
+            if isinstance(d, list):
+                return [strip(x) for x in d]
+            return d
+        L = strip(L)
+        out = {'input_lexicon': L, 'key': k, 'call': f'wn.validate.{func.__name__}(lexicon, ids)'}
+        saved = spec_validate.TWICE
+        try:
+            spec_validate.TWICE = spec_validate.twice
+            ids = spec_validate.build_ids(L)
+            try:
+                got = func(L, ids)
+                reported = k in got
+                out['observed'] = f'{code} reports {sorted(got)[:6]}'
+            except Exception as exc:   # noqa: BLE001
+                out['observed'] = f'{type(exc).__name__}: {exc}'
+                out['reproduced'] = True
+                return out
+            want = bool(spec(L, ids, k))
+            out['expected'] = f'{k!r} {"is" if want else "is not"} an item of {code} ({func.__doc__})'
+            out['reproduced'] = (reported != want)
+        finally:
+            spec_validate.TWICE = saved
+        return out
+    return replay
 
 
 def spec_key(code):
